@@ -55,7 +55,7 @@ func c18Key(cfg drv.TableCfg, i int) val.Item {
 	return k
 }
 
-func c18Alphabet(slots []string, nkeys int, thorough bool) func(m *model.Model) []drv.Op {
+func c18Alphabet(slots []string, nkeys int, thorough bool, batchGet bool) func(m *model.Model) []drv.Op {
 	valid, invalid := c18Configs(thorough)
 	return func(m *model.Model) []drv.Op {
 		var ops []drv.Op
@@ -83,6 +83,10 @@ func c18Alphabet(slots []string, nkeys int, thorough bool) func(m *model.Model) 
 				add("Put(absent)", drv.Op{K: drv.KPut, Table: s, Item: val.Item{"h": val.S("k1")}})
 				add("Get(absent)", drv.Op{K: drv.KGet, Table: s, Key: val.Item{"h": val.S("k1")}})
 				add("Scan(absent)", drv.Op{K: drv.KScan, Table: s})
+				add("BatchWrite(absent)", drv.Op{K: drv.KBatchWrite, Batch: []drv.BWReq{{Table: s, Put: val.Item{"h": val.S("k1")}}}})
+				if batchGet {
+					add("BatchGet(absent)", drv.Op{K: drv.KBatchGet, BGKeys: map[string][]val.Item{s: {{"h": val.S("k1")}}}})
+				}
 				continue
 			}
 			add("CreateTable(existing)", drv.Op{K: drv.KCreate, Table: s, Cfg: &valid[0]})
@@ -115,6 +119,11 @@ func c18Alphabet(slots []string, nkeys int, thorough bool) func(m *model.Model) 
 			for i := 1; i <= nkeys; i++ {
 				k := c18Key(t.Cfg, i)
 				add("Put", drv.Op{K: drv.KPut, Table: s, Item: with(k, "a", val.S("v"), "g", val.S("x"))})
+				if i == 1 && s == slots[0] {
+					// (first slot only, to keep the quick tier small) an item without the attributes the indexes are keyed on: it stays out of every
+					// index, also of one created later on the populated table
+					add("Put(key only)", drv.Op{K: drv.KPut, Table: s, Item: k.Clone()})
+				}
 				add("Del", drv.Op{K: drv.KDel, Table: s, Key: k})
 			}
 		}
@@ -209,7 +218,7 @@ func C18(run *ev.Run, tier string) map[string]interface{} {
 			st := mc.Explore(mc.Sys{
 				Name:      "C18/" + sy.name,
 				NewImpl:   func() drv.Driver { return &drv.Multi{Cs: []drv.Driver{d.New(), d.New()}} },
-				Alphabet:  c18Alphabet(sy.slots, sy.nkeys, thorough),
+				Alphabet:  c18Alphabet(sy.slots, sy.nkeys, thorough, d.Name == "v2"), // the v1 client has no BatchGetItem
 				Observe:   c18Observe(sy.slots),
 				SigOf:     mc.DefaultSig("C18"),
 				MaxStates: maxStates,
@@ -221,7 +230,7 @@ func C18(run *ev.Run, tier string) map[string]interface{} {
 	}
 	cov := total.Coverage()
 	cov["per_system"] = per
-	cov["alphabet"] = "CreateTable (valid configurations: billing modes, H/HR, S/N keys, 0-2 GSI, 0-1 LSI; invalid: no throughput), AddTable, DeleteTable, UpdateTable create/delete GSI, AddIndex, ClearTable, DescribeTable, Put, Del and every operation on absent tables, over table slots of one or two clients"
+	cov["alphabet"] = "CreateTable (valid configurations: billing modes, H/HR, S/N keys, 0-2 GSI, 0-1 LSI; invalid: no throughput), AddTable, DeleteTable, UpdateTable create/delete GSI, AddIndex, ClearTable, DescribeTable, Put (also of a key-only item), Del and every operation on absent tables (incl. BatchWriteItem and BatchGetItem), over table slots of one or two clients"
 	cov["oracle"] = "catalogue model: ResourceInUse / ResourceNotFound classes, new table empty with declared schema and indexes, DescribeTable = current item/index counts, delete/clear empty the table and indexes, re-created table conforms like a fresh one in all futures, operations on one slot never change the observation of another (two real clients are driven as one catalogue with distinct names)"
 	return cov
 }
